@@ -549,3 +549,133 @@ fn kd7_gzip_start_stale_gzindex() {
     core::mem::forget(stream);
     core::mem::forget(state);
 }
+
+/// contract stub for `algorithm::run` with two behaviours chosen by the space it is given: with exactly one byte of output
+/// space the block it writes does not fit — it takes all input, uses up the space, leaves nothing pending and reports
+/// NeedMore (the situation zlib.h describes as "call again with the same flush and more output space"); with more space it
+/// completes according to `flush`.
+pub(crate) fn stub_run_starved_then_done(stream: &mut DeflateStream, flush: DeflateFlush) -> BlockState {
+    stream.total_in += stream.avail_in as crate::c_api::z_size;
+    stream.next_in = stream.next_in.wrapping_add(stream.avail_in as usize);
+    stream.avail_in = 0;
+    if stream.avail_out == 1 {
+        unsafe { *stream.next_out = 0x55 };
+        stream.next_out = stream.next_out.wrapping_add(1);
+        stream.avail_out = 0;
+        stream.total_out += 1;
+        stream.state.lookahead = 1; // data still buffered, not yet emitted
+        return BlockState::NeedMore;
+    }
+    stream.state.lookahead = 0;
+    match flush {
+        DeflateFlush::Finish => BlockState::FinishDone,
+        DeflateFlush::NoFlush => BlockState::NeedMore,
+        _ => BlockState::BlockDone,
+    }
+}
+
+fn any_flush_but_none() -> DeflateFlush {
+    let fsel: u8 = kani::any();
+    kani::assume(fsel < 5);
+    match fsel {
+        0 => DeflateFlush::Finish,
+        1 => DeflateFlush::SyncFlush,
+        2 => DeflateFlush::FullFlush,
+        3 => DeflateFlush::PartialFlush,
+        _ => DeflateFlush::Block,
+    }
+}
+
+/// A flush that ran out of output space inside the compress function is completed by the next call with the same flush value
+/// and no new input — whatever flush the call before it used (C11 "flushes starved of output and completed by later calls",
+/// C06 "a buffer-full status is never fatal").
+#[kani::proof]
+#[kani::unwind(10)]
+#[kani::stub(core::fmt::write, stub_fmt_write)]
+#[kani::stub(core::panicking::panic_nounwind, stub_pn)]
+#[kani::stub(core::panicking::panic_nounwind_fmt, stub_pnf)]
+#[kani::stub(crate::deflate::algorithm::run, stub_run_starved_then_done)]
+#[kani::stub(<[u16]>::fill, stub_fill_zero)]
+fn kd7_starved_flush_is_completed_by_the_next_call() {
+    let mut w = [0u8; 2 << WB7];
+    let mut p = [0u16; 1 << WB7];
+    let mut h = [0u16; HASH_SIZE];
+    let mut pe = [MaybeUninit::new(0u8); 4 * LB7];
+    let mut sy = [0u8; 3 * LB7];
+    let mut state = typed_state(&mut w, &mut p, &mut h, &mut pe, &mut sy, WB7, LB7, 6, 0, Strategy::Default);
+    state.window_size = 2 << WB7;
+    state.status = Status::Busy;
+    // the previous, completed call used any flush value (or this is the first call: -2; or the "avoid BUF_ERROR" mark: -1)
+    let prev: i8 = kani::any();
+    kani::assume(prev >= -2 && prev <= 5 && prev != 4);
+    state.last_flush = prev;
+    let mut stream = typed_stream(unsafe { &mut *(&mut state as *mut State) });
+    let flush = any_flush_but_none();
+    let input = [1u8, 2, 3];
+    let mut out = [0u8; 16];
+    stream.next_in = input.as_ptr() as *mut u8;
+    stream.avail_in = 3;
+    stream.next_out = out.as_mut_ptr();
+    stream.avail_out = 1;
+    let rc1 = deflate(&mut stream, flush);
+    assert!(rc1 == ReturnCode::Ok && stream.avail_out == 0 && stream.avail_in == 0);
+    // the continuation zlib.h asks for: same flush, more output space, no new input
+    stream.avail_out = 15;
+    let rc2 = deflate(&mut stream, flush);
+    assert!(rc2 != ReturnCode::BufError, "the continuation of a starved flush is not refused");
+    let produced = 15 - stream.avail_out as usize;
+    match flush {
+        DeflateFlush::Finish => assert!(rc2 == ReturnCode::StreamEnd),
+        DeflateFlush::SyncFlush | DeflateFlush::FullFlush => {
+            assert!(rc2 == ReturnCode::Ok && produced == 5);
+            assert!(out[1] == 0 && out[2] == 0 && out[3] == 0 && out[4] == 0xff && out[5] == 0xff, "marker after the block");
+        }
+        _ => assert!(rc2 == ReturnCode::Ok),
+    }
+    kani::cover!(prev == 2 && matches!(flush, DeflateFlush::SyncFlush));
+    kani::cover!(prev == -2 && matches!(flush, DeflateFlush::Finish));
+    core::mem::forget(stream);
+    core::mem::forget(state);
+}
+
+/// A call refused because there is no output space changes nothing: the same call with space then does what it would have
+/// done in the first place (C06 "a buffer-full status is never fatal").
+#[kani::proof]
+#[kani::unwind(10)]
+#[kani::stub(core::fmt::write, stub_fmt_write)]
+#[kani::stub(core::panicking::panic_nounwind, stub_pn)]
+#[kani::stub(core::panicking::panic_nounwind_fmt, stub_pnf)]
+#[kani::stub(crate::deflate::algorithm::run, stub_run_starved_then_done)]
+#[kani::stub(<[u16]>::fill, stub_fill_zero)]
+fn kd7_refused_call_without_space_is_harmless() {
+    let mut w = [0u8; 2 << WB7];
+    let mut p = [0u16; 1 << WB7];
+    let mut h = [0u16; HASH_SIZE];
+    let mut pe = [MaybeUninit::new(0u8); 4 * LB7];
+    let mut sy = [0u8; 3 * LB7];
+    let mut state = typed_state(&mut w, &mut p, &mut h, &mut pe, &mut sy, WB7, LB7, 6, 0, Strategy::Default);
+    state.window_size = 2 << WB7;
+    state.status = Status::Busy;
+    state.lookahead = 1; // input already taken into the window, not yet emitted
+    let prev: i8 = kani::any();
+    kani::assume(prev >= -2 && prev <= 5 && prev != 4);
+    state.last_flush = prev;
+    let mut stream = typed_stream(unsafe { &mut *(&mut state as *mut State) });
+    let flush = any_flush_but_none();
+    // a direct call would not be a duplicate flush
+    kani::assume(matches!(flush, DeflateFlush::Finish) || rank_flush(flush as i8) > rank_flush(prev));
+    let mut out = [0u8; 16];
+    let input = [0u8; 1];
+    stream.next_in = input.as_ptr() as *mut u8;
+    stream.avail_in = 0;
+    stream.next_out = out.as_mut_ptr();
+    stream.avail_out = 0;
+    let rc1 = deflate(&mut stream, flush);
+    assert!(rc1 == ReturnCode::BufError, "no output space: documented status");
+    stream.avail_out = 16;
+    let rc2 = deflate(&mut stream, flush);
+    assert!(rc2 != ReturnCode::BufError, "the retry with output space goes through");
+    kani::cover!(prev == 0 && matches!(flush, DeflateFlush::SyncFlush));
+    core::mem::forget(stream);
+    core::mem::forget(state);
+}
